@@ -86,6 +86,18 @@ def resolve_rule(ctx):
     # a result that fails its re-check (it vanished, or is no directory) is passed over: the walk over glob(3)'s results has no exit of
     # its own.  resolveWildcard turns a glob error into "no cgroup matches", and Ruleset::runOnce drops every instance that is not in
     # this tick's list - one cgroup removed at the wrong moment would cost all its siblings their windows, pauses and suspended chains.
+    # whatever Fs::glob answers, it has asked glob(3): no verdict about a pattern (too long, odd characters, ...) of its own in front.
+    # resolveWildcard turns any error into 'no cgroup matches'.
+    g3 = [i for i in gl.calls("glob") if plain(gl.nodes[i].get("callee") or "") in ("glob", "glob64") and gl.pos_of(i) is not None]
+    ctx.counters["glob3_calls"] = len(g3)
+    ctx.floor("glob3_calls", 1, "glob(3) call in Fs::glob")
+    if g3:
+        fg3 = Flow(P, gl, events={i: [("set", "asked")] for i in g3}, cg=cg)
+        early = [gl.loc(node) for kind, node, b, parts in fg3.exits() if kind == "return" and node is not None and not all("asked" in st.must for st in parts.values())]
+        ctx.check(not early, "glob:every-answer-comes-from-glob3", "must_pass_through", gl.loc(),
+                  "every return of Fs::glob is preceded by the glob(3) call",
+                  "Fs::glob returns at %s without having called glob(3): a pattern is refused (or answered) by a test of Fs::glob's own, and resolveWildcard "
+                  "reads that as 'no cgroup matches' although matching directories exist" % ", ".join(early))
     gll = [l for l in loops(gl) if l["stmt"] is not None and any(gl.pos_of(i) is not None and (gl.pos_of(i)[0] in l["body"] or l["stmt"] in list(gl.ancestors(i))) for i in emits)]
     if len(gll) == 1:
         no_early_exit(ctx, gl, gll[0], "glob:a-failed-recheck-skips-one-entry", "glob(3)'s results")
